@@ -439,6 +439,13 @@ func (r *rewriter) rewriteIter(c *astutil.Cursor, pkg loader.Pkg) bool {
 			))
 		}
 		return true
+	case *ast.Ident:
+		// the name of embedded field follows its type, Iter[T] => Iterator[T],
+		// e.g., struct{ co.Iter[int] }{Iter: g()}.Iter
+		if v, ok := pkg.ObjectOf(n).(*types.Var); ok && v.Embedded() &&
+			n.Name == r.iterType.Name() && r.isIterator(v.Type()) {
+			n.Name = cstIterator
+		}
 	}
 	return true
 }
